@@ -21,7 +21,8 @@
 EXTENDS VerifCommon
 
 CONSTANTS ASel      \* "each" : the three constraint groups varied one at a time around a valid centre
-                    \* "pairs": the groups crossed pairwise (global x path, record x path, few globals x record)
+                    \* "pairs": additionally the groups crossed pairwise (few globals x path, record x few paths,
+                    \*          path-level record settings x every single path)
 
 \* ------------------------------------------------------------------ token tables
 \* A duration token: the text a user writes and an order rank (monotone in the real value;
@@ -157,9 +158,11 @@ Universe ==
     CASE ASel = "each"  -> {Put(a, CB, CC, v) : a \in GA, v \in Vias}
                            \cup {Put(CA, b, CC, v) : b \in GB, v \in Vias}
                            \cup {Put(CA, CB, cc, v) : cc \in GC, v \in Vias}
-      [] ASel = "pairs" -> {Put(a, CB, cc, v) : a \in GA, cc \in GC, v \in Vias}
-                           \cup {Put(CA, b, cc, v) : b \in GB, cc \in NoSecond, v \in Vias}
-                           \cup {Put(a, b, cc, v) : a \in SmallA, b \in GB, cc \in FewC, v \in Vias}
+      [] ASel = "pairs" -> {Put(a, CB, CC, v) : a \in GA, v \in Vias}
+                           \cup {Put(CA, CB, cc, v) : cc \in GC, v \in Vias}
+                           \cup {Put(a, CB, cc, v) : a \in SmallA, cc \in GC, v \in Vias}
+                           \cup {Put(CA, b, cc, v) : b \in GB, cc \in FewC, v \in Vias}
+                           \cup {Put(CA, b, cc, "file") : b \in {x \in GB : x.lvl = "path" /\ ~x.pb}, cc \in NoSecond}
 
 \* ------------------------------------------------------------------ shape classes
 FieldKinds == {"string", "int", "uint", "float", "bool", "duration", "stringsize", "enum", "credential",
